@@ -218,6 +218,12 @@ impl AggregateExecutionEngine {
                 let column_value = expression_execution_engine.evaluate(expression)?;
 
                 if let Value::String(column_value) = column_value {
+                    // The delimiter stands between all values of the group, also after an empty text
+                    let first_value = !self.group_values
+                        .get(group_key)
+                        .map(|group| group.contains_key(&aggregate_index))
+                        .unwrap_or(false);
+
                     let group_value = self.get_group_value(
                         group_key.clone(),
                         aggregate_index,
@@ -227,7 +233,7 @@ impl AggregateExecutionEngine {
                     )?;
 
                     if let Value::String(group_value) = group_value {
-                        if !group_value.is_empty() {
+                        if !first_value {
                             group_value.push_str(delimiter);
                         }
 
